@@ -26,14 +26,26 @@ class Prog:
         self.tag = 0
         self.funcs = []      # (name, text)
         self.nfunc = 0
+        self.spun = False
 
     def newtag(self):
         self.tag += 1
         return self.tag + 100 * (self.pid % 600)
 
     # ---- expressions -----------------------------------------------------------
+    def childp(self, depth):
+        """the child-pointer argument of PT_SPAWN / PT_SPAWN_AND_CHECK / PT_CALL: usually a plain
+        address, sometimes an expression with an observable side effect (it must be evaluated
+        exactly once each time the spawn point is reached)"""
+        if self.rng.randrange(4) == 0:
+            return "PP(c, %d, %d)" % (depth, self.newtag())
+        return "&c->pt[%d]" % depth
+
     def cond(self, call_safe):
         r = self.rng
+        if r.randrange(7) == 0:
+            # a condition with an observable side effect: PT_EXIT_ON / PT_FAIL_ON / if evaluate it once
+            return "(E(c, %d) && %s)" % (self.newtag(), self.cond(call_safe))
         if r.randrange(8) == 0:
             # conditions that are not plain ints: non-zero values that a narrowing to int would lose
             return r.choice(["((uint64_t)(c->v[%d] & 1) << 40)" % r.randrange(2),
@@ -110,6 +122,14 @@ class Prog:
                         out.append("\t" + one)
                     out.append("T(c, %d);" % self.newtag())
                     continue
+            if call_safe and not self.spun and nest == 0 and loopn == 0 and r.randrange(10) == 0:
+                # a child run under PT_CALL may block any number of times: PT_CALL polls it to the end
+                self.spun = True
+                lc = "c->lc[%d][%d]" % (depth, 2)
+                out.append("for (%s = 0; %s < %d; %s++)" % (lc, lc, r.choice([255, 256, 65535, 65536, 65537, 70001]), lc))
+                out.append("\t" + r.choice(["PT_YIELD();", "PT_WAIT();"]))
+                out.append("T(c, %d);" % self.newtag())
+                continue
             if k < 22:
                 out += self.effect()
             elif k < 34:
@@ -148,16 +168,16 @@ class Prog:
                 kind = r.randrange(10)
                 if kind < 5:
                     child = self.func(depth + 1, call_safe)
-                    out.append("PT_SPAWN(&c->pt[%d], FN(%s)(c));" % (depth + 1, child))
+                    out.append("PT_SPAWN(%s, FN(%s)(c));" % (self.childp(depth + 1), child))
                     # PT_CHILD_OK is consulted before the next blocking point
                     out.append("T(c, PT_CHILD_OK() ? %d : %d);" % (self.newtag(), self.newtag()))
                 elif kind < 8:
                     child = self.func(depth + 1, call_safe)
-                    out.append("PT_SPAWN_AND_CHECK(&c->pt[%d], FN(%s)(c));" % (depth + 1, child))
+                    out.append("PT_SPAWN_AND_CHECK(%s, FN(%s)(c));" % (self.childp(depth + 1), child))
                     out.append("T(c, %d);" % self.newtag())
                 else:
                     child = self.func(depth + 1, True)
-                    out.append("PT_CALL(&c->pt[%d], FN(%s)(c));" % (depth + 1, child))
+                    out.append("PT_CALL(%s, FN(%s)(c));" % (self.childp(depth + 1), child))
                     out.append("T(c, %d);" % self.newtag())
             else:
                 out += self.effect()
@@ -179,10 +199,10 @@ class Prog:
             return "PT_FAIL_ON(%s);" % self.cond(call_safe)
         if depth < 3:
             if k == 5:
-                return "PT_SPAWN(&c->pt[%d], FN(%s)(c));" % (depth + 1, self.func(depth + 1, call_safe))
+                return "PT_SPAWN(%s, FN(%s)(c));" % (self.childp(depth + 1), self.func(depth + 1, call_safe))
             if k == 6:
-                return "PT_SPAWN_AND_CHECK(&c->pt[%d], FN(%s)(c));" % (depth + 1, self.func(depth + 1, call_safe))
-            return "PT_CALL(&c->pt[%d], FN(%s)(c));" % (depth + 1, self.func(depth + 1, True))
+                return "PT_SPAWN_AND_CHECK(%s, FN(%s)(c));" % (self.childp(depth + 1), self.func(depth + 1, call_safe))
+            return "PT_CALL(%s, FN(%s)(c));" % (self.childp(depth + 1), self.func(depth + 1, True))
         return "PT_YIELD();"
 
     def func(self, depth, call_safe):
